@@ -77,3 +77,72 @@ where
             r matches Ok(s) ==> s.bin_width == bin_width && s.min == min && s.max == max, // [C12]
     { unimplemented!() }
 }
+
+// ---- FreedmanDiaconis / Auto --------------------------------------------------------------------------------------------------
+pub struct FreedmanDiaconis<T> { pub builder: EquiSpaced<T> }
+pub enum SturgesOrFD<T> { Sturges(Sturges<T>), FreedmanDiaconis(FreedmanDiaconis<T>) }
+pub struct Auto<T> { pub builder: SturgesOrFD<T> }
+// what the FreedmanDiaconis front-end uses of the quantile API.  ASSUMED here (stated and proved, in the vocabulary of lanes, in
+// unit `qglue`: InvalidQuantile for q outside [0,1], EmptyInput for an empty array, Ok otherwise, the array left a permutation of
+// itself): a valid q on a non-empty array gives Ok(nearest_q(multiset, q)); the array keeps its multiset
+#[derive(Debug)]
+pub struct N64 { pub bits: u64 }
+pub struct Nearest;
+#[derive(Debug)]
+pub enum QuantileError { EmptyInput, InvalidQuantile(N64) }
+impl N64 { pub uninterp spec fn valid_q(&self) -> bool; }
+// R18: the literals n64(0.25) and n64(0.75) lie in [0, 1]
+pub uninterp spec fn q25() -> N64;
+pub uninterp spec fn q75() -> N64;
+#[verifier::external_body]
+pub fn verif_q25() -> (r: N64) ensures r == q25(), r.valid_q() { unimplemented!() }
+#[verifier::external_body]
+pub fn verif_q75() -> (r: N64) ensures r == q75(), r.valid_q() { unimplemented!() }
+// the value quantile_mut(q, &Nearest) returns for a non-empty collection: a function of the multiset of the elements (that the
+// result does not depend on the arrangement, hence not on the pivots or on what an earlier call left behind, is proved in unit
+// qglue for orders in which equivalent elements are identical: lemma_quantile_determined); its value is not interpreted here
+pub uninterp spec fn nearest_q<A>(m: vstd::multiset::Multiset<A>, q: N64) -> A;
+impl<A, D: Dimension> ArrayN<A, D> {
+    #[verifier::external_body]
+    pub fn to_owned(&self) -> (r: ArrayN<A, D>) where A: Clone
+        ensures lawful_clone::<A>() ==> r@ == self@, r@.len() == self@.len()
+    { unimplemented!() }
+    #[verifier::external_body]
+    pub fn quantile_mut(&mut self, q: N64, interpolate: &Nearest) -> (r: Result<A, QuantileError>) where A: Ord + Clone
+        ensures
+            final(self)@.len() == old(self)@.len(), final(self)@.to_multiset() == old(self)@.to_multiset(),
+            q.valid_q() && old(self)@.len() > 0 ==> r == Ok::<A, QuantileError>(nearest_q(old(self)@.to_multiset(), q)),
+    { unimplemented!() }
+}
+// R18: `(n_bins as f64).powf(1. / 3.)` - not interpreted
+pub uninterp spec fn cbrt_f64(n: usize) -> f64;
+#[verifier::external_body]
+pub fn verif_cbrt(n: usize) -> (r: f64) ensures r == cbrt_f64(n) { unimplemented!() }
+// 2 * iqr / from_f64(n^(1/3)) with the element type's own operators
+pub open spec fn fd_width_spec<T: NumOps + FromPrimitive>(n: usize, iqr: T) -> T {
+    T::from_usize_spec(2).unwrap().mul_spec(iqr).div_spec(T::from_f64_spec(cbrt_f64(n)).unwrap())
+}
+pub open spec fn fd_ok<T: NumOps + FromPrimitive>() -> bool {
+    &&& width_ok::<T>() && T::obeys_mul_spec()
+    &&& forall|a: T, b: T| #[trigger] a.mul_req(b)
+    &&& forall|x: f64| (#[trigger] T::from_f64_spec(x)) is Some
+}
+// bin_width getters of the builders (src/histogram/strategies.rs: clones of the stored width)
+impl<T: Clone> EquiSpaced<T> {
+    #[verifier::external_body]
+    pub fn bin_width(&self) -> (r: T) ensures lawful_clone::<T>() ==> r == self.bin_width
+    { unimplemented!() }
+}
+// R16: order comparisons on values of an `Ord` type (std derives them from `cmp` for a lawful order - A-ORD)
+#[verifier::external_body]
+pub fn verif_val_gt<T: Ord>(a: T, b: T) -> (r: bool) ensures r == (a.cmp_spec(&b) == Ordering::Greater) { unimplemented!() }
+#[verifier::external_body]
+pub fn verif_val_lt<T: Ord>(a: T, b: T) -> (r: bool) ensures r == (a.cmp_spec(&b) == Ordering::Less) { unimplemented!() }
+#[verifier::external_body]
+pub fn verif_val_ge<T: Ord>(a: T, b: T) -> (r: bool) ensures r == (a.cmp_spec(&b) != Ordering::Less) { unimplemented!() }
+#[verifier::external_body]
+pub fn verif_val_le<T: Ord>(a: T, b: T) -> (r: bool) ensures r == (a.cmp_spec(&b) != Ordering::Greater) { unimplemented!() }
+// the interquartile width of FreedmanDiaconis: 2 * (Q3 - Q1) / n^(1/3), quartiles by the Nearest strategy
+pub open spec fn fd_width_of<T: NumOps + FromPrimitive>(data: Seq<T>) -> T {
+    fd_width_spec(data.len() as usize, nearest_q(data.to_multiset(), q75()).sub_spec(nearest_q(data.to_multiset(), q25())))
+}
